@@ -26,6 +26,8 @@ sys.dont_write_bytecode = True
 
 
 def main():
+    import logging
+    logging.disable(logging.CRITICAL)
     ap = argparse.ArgumentParser()
     ap.add_argument('--property')
     ap.add_argument('--tier', default='quick')
